@@ -91,8 +91,46 @@ pub fn stats_event(stream: &[u8], sh: bool, bounds: &[usize], c1: usize, c2: usi
     json!({"op": "stats", "sh": sh, "stream": proj::bytes(stream), "bounds": bounds, "split": [c1, c2], "res": res})
 }
 
-pub fn record(_mode: &str, seed: u64, n: usize, out: &mut Out) {
+/// beyond the listed properties: reader -> parse -> filter -> statistics in one behaviour (./check extras)
+pub fn pipeline_event(stream: &[u8], sh: bool, cfg: &dlt_core::filtering::DltFilterConfig) -> J {
+    let res = catch_unwind(AssertUnwindSafe(|| {
+        let processed: dlt_core::filtering::ProcessedDltFilterConfig = cfg.into();
+        let mut rd = DltMessageReader::new(stream, sh);
+        let mut pm = vec![];
+        loop {
+            match dlt_core::read::read_message(&mut rd, Some(&processed)) {
+                Ok(Some(dlt_core::parse::ParsedMessage::Item(m))) => pm.push(json!({"v": "msg", "h": proj::std_header(&m.header), "x": proj::opt(&m.extended_header, proj::ext_header)})),
+                Ok(Some(dlt_core::parse::ParsedMessage::FilteredOut(k))) => pm.push(json!({"v": "filtered", "n": k})),
+                Ok(Some(dlt_core::parse::ParsedMessage::Invalid)) => pm.push(json!({"v": "invalid"})),
+                Ok(None) => { pm.push(json!({"v": "eos"})); break; }
+                Err(_) => { pm.push(json!({"v": "err"})); break; }
+            }
+        }
+        let whole = collect(stream, sh).ok();
+        let total: usize = whole.as_ref().map(|i| i.ecu_ids.iter().map(|(_, d)| d.non_log + d.log_fatal + d.log_error + d.log_warning + d.log_info + d.log_debug + d.log_verbose + d.log_invalid).sum()).unwrap_or(usize::MAX);
+        json!({"v": "ok", "pm": pm, "stats_total": total})
+    }));
+    json!({"op": "pipeline", "sh": sh, "stream": proj::bytes(stream), "flt": [proj::filter_config(cfg)], "res": match res { Ok(j) => j, Err(_) => json!({"v": "panic"}) }})
+}
+pub fn record(mode: &str, seed: u64, n: usize, out: &mut Out) {
     let mut r = Rng::new(seed);
+    if mode == "pipeline" {
+        for _ in 0..n {
+            let sh = r.coin();
+            let nm = r.below(6) as usize;
+            let mut stream = vec![];
+            let mut last = None;
+            for _ in 0..nm {
+                let m = gen::message(&mut r, &MsgOpts { storage: Some(sh), big: 10, max_args: 2 });
+                stream.extend(m.as_bytes());
+                last = Some(m);
+            }
+            let cfg = crate::slice::random_filter(&mut r, last.as_ref());
+            out.calls += 2 + nm as u64;
+            out.emit(pipeline_event(&stream, sh, &cfg), nm >= 2);
+        }
+        return;
+    }
     for _ in 0..n {
         let sh = r.coin();
         let nm = r.below(7) as usize;
